@@ -77,6 +77,14 @@ def handle (op : String) (j : Json) : Except String Json := do
     match SM.read t.toList with
     | .ok ms => .ok (okJson (obj [("hdr", headerToJson ms.hdr), ("charts", listToJson chartToJson ms.charts)]))
     | .error e => .ok (rerrToJson e)
+  | "c02.read_file" =>
+    let t ← getStr j "text"
+    match SM.readFile t.toList with
+    | .ok ms => .ok (okJson (obj [("hdr", headerToJson ms.hdr), ("charts", listToJson chartToJson ms.charts)]))
+    | .error e => .ok (rerrToJson e)
+  | "c02.denote_file" =>
+    let t ← getStr j "text"
+    .ok (okJson (optToJson denotedToJson (denote (univNl t.toList))))
   | "c02.denote" =>
     let t ← getStr j "text"
     .ok (okJson (optToJson denotedToJson (denote t.toList)))
